@@ -281,6 +281,7 @@ def rule_L4(ctx, rule: str = "L4") -> None:
 def rule_N1(ctx) -> None:
     """constants and guards agree between dump/size/load and with the spec"""
     rule_L4(ctx, "N1")
+    rule_N1b(ctx, "N1")
     mod = ctx.repo.mod(M_INIT)
     f = varint_facts(ctx)
     loc = mod.loc(mod.func("load_varint"))
@@ -307,6 +308,56 @@ def rule_N1(ctx) -> None:
                     "decoder shift must start at 0 and advance by 7", "decode_varint(b'\\x80\\x01', 0)")
     else:
         ctx.proved("N1", "load_varint:shift-step", loc)
+
+
+def rule_N1b(ctx, rule: str = "N1") -> None:
+    """the emit loop of dump_varint writes a continuation byte iff more than `group` bits remain (canonical minimal encoding)"""
+    mod = ctx.repo.mod(M_INIT)
+    dv = mod.func("dump_varint")
+    loc = mod.loc(dv)
+    f = varint_facts(ctx)
+    group = f["dump_shifts"][0] if len(f["dump_shifts"]) == 1 else None
+    loops = [n for n in ast.walk(dv) if isinstance(n, ast.While)]
+    v = dv.args.args[0].arg
+    name = "dump_varint:continuation-condition"
+    if group is None or len(loops) != 1:
+        ctx.inconclusive(rule, name, f"emit loop not recognised ({len(loops)} while loops, shifts {f['dump_shifts']})", loc)
+        return
+    lp = loops[0]
+    t = simplify(from_ast(lp.test, lambda n: C(mod.consts[n]) if n in mod.consts and isinstance(mod.consts[n], int) else None))
+    mask = (1 << group) - 1
+    if t == N(v):
+        # `while value:` is canonical when the value tested is what remains after the current group was taken out
+        g = CFG(dv, implicit_exc=False)
+        shifts = {nd.id for nd in g.nodes if nd.kind == "stmt" and isinstance(nd.stmt, (ast.AugAssign, ast.Assign)) and
+                  any(isinstance(x, ast.RShift) for x in ast.walk(nd.stmt)) and v in ast.unparse(nd.stmt).split("=")[0]}
+        heads = [nd for nd in g.nodes_for(lp) if nd.kind == "loop"]
+        dom = g.dominators(labels=normal_edge)
+        pre = bool(heads) and all(any(sid in dom[h.id] for sid in shifts) for h in heads)
+        body_shift = any(isinstance(x, ast.RShift) for b in lp.body for x in ast.walk(b))
+        if pre and body_shift:
+            ctx.proved(rule, name, mod.loc(lp), "continues while bits remain after removing the current group")
+        else:
+            ctx.refuted(rule, name, "truthy-before-shift", mod.loc(lp),
+                        "`while value:` tests the value before the current group was shifted out: a final zero byte / missing byte results", "encode_varint(1)")
+    elif t[0] == "op" and t[1] == "<" and len(t) == 4 and t[2][0] == "c" and t[3] == N(v):
+        k = t[2][1]
+        if k == mask:
+            ctx.proved(rule, name, mod.loc(lp), f"value > {mask:#x}")
+        else:
+            ctx.refuted(rule, name, f"value>{k}", mod.loc(lp), f"the emit loop continues while value > {k:#x}; a continuation byte is needed exactly when value > {mask:#x}: "
+                        f"values whose top group equals a boundary are written non-canonically (an extra zero byte) or lose a byte", f"encode_varint({max(k, mask)}) / encode_varint({min(k, mask) + 1})")
+    elif t[0] == "op" and t[1] == "not" and t[2][0] == "op" and t[2][1] == "<" and t[2][2] == N(v) and t[2][3][0] == "c":
+        k = t[2][3][1]
+        if k == mask + 1:
+            ctx.proved(rule, name, mod.loc(lp), f"value >= {mask + 1:#x}")
+        else:
+            ctx.refuted(rule, name, f"value>={k}", mod.loc(lp),
+                        f"the emit loop continues while value >= {k:#x}; a continuation byte is needed exactly when value >= {mask + 1:#x}: e.g. {min(k, mask + 1)} "
+                        f"is written as two bytes (0x{0x80 | (min(k, mask + 1) & mask):02x} 0x{min(k, mask + 1) >> group:02x}) instead of one, and size_varint disagrees",
+                        f"encode_varint({min(k, mask + 1)})")
+    else:
+        ctx.inconclusive(rule, name, f"loop condition `{ast.unparse(lp.test)}` not in a recognised form", mod.loc(lp))
 
 
 def rule_N2(ctx, rule: str = "N2") -> None:
@@ -401,7 +452,12 @@ def rule_N3(ctx) -> None:
                 # or stream.tell()
                 if second[0] == "call" and dotted(second[1]).endswith(".tell"):
                     good = True
+    minimal = any(p.value is not None and any(x[0] == "call" and dotted(x[1]) == "size_varint" for x in walk(p.value)) for p in paths if p.outcome == "return")
     if good:
         ctx.proved("N3", "decode_varint:position", mod.loc(dv), detail)
+    elif minimal:
+        ctx.refuted("N3", "decode_varint:position", "advances-by-minimal-size", mod.loc(dv),
+                    f"decode_varint returns {detail}: the position advances by the size of the *minimal* encoding of the value, not by the bytes consumed; "
+                    "a legal non-minimal (zero-padded) varint desynchronises every following element", "M().parse(b'\\x0a\\x03\\x81\\x00\\x02')  # packed [1 (padded), 2]")
     else:
         ctx.inconclusive("N3", "decode_varint:position", f"new position not of the form pos + len(raw): {detail}", mod.loc(dv))
